@@ -108,6 +108,42 @@ def lint_cell_hash_eq():
     return bad
 
 
+def lint_nested_borrows():
+    """Cell-model lint for C09 (DESIGN 2.3): RefCell borrow flags are not modelled, so the proof of panic freedom
+    rests on the absence of conflicting borrows.  Mechanical check: inside the block of a construct that holds a
+    `borrow_mut()` (if let / match / while let on `*c.borrow_mut()`) there is no further borrow()/borrow_mut();
+    inside a block that holds a `borrow()` there is no `borrow_mut()`.  (Shared borrows may nest.)  A finding is not
+    a violation (the cells may differ): it makes the deductive verdict for C09 undecided."""
+    import rsx
+    repo = os.environ.get('VERIF_REPO', '/repo')
+    bad = []
+    for rel in ('src/generator/stack_ops.rs', 'src/generator/utils.rs', 'src/generator/validation.rs', 'src/generator/emission.rs',
+                'src/generator/core.rs', 'src/generator/mutation.rs', 'src/stack.rs', 'src/state.rs', 'src/mutators/typeconfusion.rs'):
+        try:
+            src = open(os.path.join(repo, rel), encoding='utf-8').read()
+        except OSError as e:
+            bad.append('%s unreadable: %s' % (rel, e))
+            continue
+        m = re.search(r'(?m)^#\[cfg\(test\)\]', src)
+        if m:
+            src = src[:m.start()]
+        ms = rsx.mask(src)
+        for mm in re.finditer(r'\.\s*borrow(_mut)?\s*\(\s*\)', ms):
+            k = mm.end()
+            while k < len(ms) and ms[k] not in '{;}':
+                k += 1
+            if k >= len(ms) or ms[k] != '{':
+                continue
+            body = ms[k + 1:rsx.match_close(ms, k)]
+            outer_mut = mm.group(1) is not None
+            for im in re.finditer(r'\.\s*borrow(_mut)?\s*\(\s*\)', body):
+                if outer_mut or im.group(1) is not None:
+                    bad.append('%s:%d: %s inside a block that holds %s' % (rel, src.count('\n', 0, mm.start()) + 1,
+                               'borrow_mut()' if im.group(1) else 'borrow()', 'borrow_mut()' if outer_mut else 'borrow()'))
+                    break
+    return bad
+
+
 def parse_errors(stderr):
     """Split rustc-style diagnostics into records (msg, first span line, all span lines)."""
     recs = []
